@@ -48,7 +48,7 @@ ASSUMPTIONS = ['points on breakpoints (grid nodes; cell mid-points for even-orde
                'checked by complex step / differences, not by the linearity identity',
                'fixed-dimension methods do not offer training gradients (documented) and are not asked for them',
                'cases whose derived tolerance exceeds 1e-6 (relative) are discarded as ill-conditioned']
-MIN_JUDGED = {'quick': 250, 'thorough': 3000}
+MIN_JUDGED = {'quick': 200, 'thorough': 4000}
 SHARD_TIMEOUT = {'quick': 600, 'thorough': 2400}
 
 GENERAL = ['slinear', 'lagrange2', 'lagrange3', 'cubic', 'akima',
@@ -75,12 +75,34 @@ W7 = np.array([-1.0, 9.0, -45.0, 0.0, 45.0, -9.0, 1.0]) / 60.0
 W5 = np.array([1.0, -8.0, 0.0, 8.0, -1.0]) / 12.0
 
 
-def _where(e):
+def _chain(e):
+    out, seen = [], set()
+    while e is not None and id(e) not in seen:
+        seen.add(id(e))
+        out.append(e)
+        e = e.__cause__ or e.__context__
+    return out
+
+
+def _root(e):
+    """Innermost exception of a re-raise chain that was raised from OpenMDAO code (components wrap the errors
+    of their interpolators)."""
+    for x in reversed(_chain(e)):
+        if _where1(x) != '?':
+            return x
+    return e
+
+
+def _where1(e):
     tb = traceback.extract_tb(e.__traceback__)
     for fr in reversed(tb):
         if '/openmdao/' in fr.filename:
             return '%s:%s' % (os.path.basename(fr.filename), fr.name)
     return '?'
+
+
+def _where(e):
+    return _where1(_root(e))
 
 
 class _Report(object):
@@ -507,12 +529,14 @@ def judge_mmsc(case, acc):
         acc.skip('ill-conditioned-grid')
         return
     names = ['x%d' % d for d in range(nd)]
-    prob = om.Problem()
-    try:
+
+    def build(with_train):
+        prob = om.Problem()
         ivc = prob.model.add_subsystem('ivc', om.IndepVarComp(), promotes=['*'])
         for d, n in enumerate(names):
             ivc.add_output(n, X[:, d].copy())
-        c = om.MetaModelStructuredComp(method=method, extrapolate=True, vec_size=K, training_data_gradients=tdg)
+        c = om.MetaModelStructuredComp(method=method, extrapolate=True, vec_size=K,
+                                       training_data_gradients=with_train)
         for n, g in zip(names, grids):
             c.add_input(n, 0.0, training_data=g.copy())
         c.add_output('f', 0.0, training_data=v1.copy())
@@ -520,12 +544,24 @@ def judge_mmsc(case, acc):
         prob.setup()
         prob.run_model()
         f1 = np.array(prob.get_val('f')).ravel().copy()
-        wrt = list(names) + (['f_train'] if tdg else [])
+        wrt = list(names) + (['f_train'] if with_train else [])
         J = prob.compute_totals(of=['f'], wrt=wrt, return_format='dict')['f']
-        J = {k: np.array(v, dtype=float) for k, v in J.items()}
+        return prob, f1, {k: np.array(v, dtype=float) for k, v in J.items()}
+
+    try:
+        prob, f1, J = build(tdg)
     except Exception as e:
-        rep.viol('mmsc:%s:raises:%s@%s' % (method, type(e).__name__, _where(e)), str(e)[:200])
-        return
+        if not tdg:
+            rep.viol('mmsc:%s:raises:%s@%s' % (method, type(_root(e)).__name__, _where(e)), str(e)[:200])
+            return
+        rep.viol('mmsc:%s:training_data_gradients:raises:%s@%s:%dD' % (method, type(_root(e)).__name__, _where(e), nd),
+                 str(e)[:200])
+        tdg = False
+        try:
+            prob, f1, J = build(False)
+        except Exception as e2:
+            rep.viol('mmsc:%s:raises:%s@%s' % (method, type(_root(e2)).__name__, _where(e2)), str(e2)[:200])
+            return
     acc.count('cell:mmsc:' + method)
 
     def run(Xs, train=None):
@@ -743,7 +779,7 @@ def judge(case, acc):
 def _cases(tier, seed):
     rng = np.random.default_rng(1000003 * seed + (31 if tier == 'quick' else 37))
     reps = {'quick': {'ddx': 6, 'train': 4, 'spline': 5, 'mmsc': 2, 'splinecomp': 3},
-            'thorough': {'ddx': 70, 'train': 40, 'spline': 50, 'mmsc': 20, 'splinecomp': 30}}[tier]
+            'thorough': {'ddx': 140, 'train': 80, 'spline': 100, 'mmsc': 40, 'splinecomp': 60}}[tier]
     out = []
     sid = [0]
 
@@ -765,6 +801,23 @@ def _cases(tier, seed):
         if rng.random() < 0.3:
             o['eps'] = 1e-20
         return o
+
+    # directed cases: input classes that must be visited in every run (structure fixed, values random)
+    def directed(part, method, npts, **kw):
+        c = base(part, method, len(npts))
+        c['npts'] = list(npts)
+        c.update(kw)
+        out.append(c)
+
+    directed('ddx', 'akima', [5, 5, 5], extrapolate=True, opts={'delta_x': 0.05})
+    directed('ddx', 'akima', [5, 6], extrapolate=False, opts={})
+    directed('ddx', '1D-akima', [4], extrapolate=True, opts={})
+    directed('ddx', 'akima', [4, 4], extrapolate=True, opts={})
+    directed('spline', 'bsplines', [6], opts={'order': 4}, cp_ends=False, n_interp=2, vec=2, flat_values=False)
+    directed('splinecomp', 'bsplines', [7], opts={'order': 4}, cp_ends=True, n_interp=3, vec=3, flat_values=False)
+    directed('mmsc', 'akima', [5, 5], vec=3)
+    directed('mmsc', 'akima', [4, 5, 5], vec=4)
+    directed('mmsc', 'akima', [6], vec=3)
 
     for _ in range(reps['ddx']):
         for m in GENERAL + FIXED:
